@@ -43,11 +43,14 @@ pub struct Outcome {
     final_panic: bool,
 }
 fn outcome(tr: &Trans) -> Outcome {
+    // what a *leaked* drain leaves behind is explicitly unspecified (it may even depend on the layout),
+    // so only what it yielded is compared there
+    let unspecified = matches!(tr.rec.act, Act::Drain(_, _, Fin::Forget)) && !tr.rec.panicked;
     Outcome {
         panicked: tr.rec.panicked,
         trace: tr.rec.trace.clone(),
-        post: tr.rec.post_tags.clone(),
-        lens: (tr.rec.post.len, tr.rec.post.is_empty, tr.rec.post.is_full),
+        post: if unspecified { vec![] } else { tr.rec.post_tags.clone() },
+        lens: if unspecified { (0, true, false) } else { (tr.rec.post.len, tr.rec.post.is_empty, tr.rec.post.is_full) },
         final_panic: tr.final_problems.iter().any(|p| p.kind == PKind::PanicMismatch),
     }
 }
